@@ -427,6 +427,40 @@ Qed.
 Lemma table_ok_holds : table_ok = true.
 Proof. vm_compute. reflexivity. Qed.
 
+Lemma t_rows_ok : table_ok = true -> forallb row_ok rows = true.
+Proof.
+  intros T. unfold table_ok in T.
+  apply andb_prop in T. destruct T as [T _]. apply andb_prop in T. destruct T as [T _].
+  apply andb_prop in T. destruct T as [T _]. exact T.
+Qed.
+
+Lemma t_row_read r f : row_ok r = true ->
+  memN f (rreads r) || (rdeferred r && memN f (rdisc r)) = true -> read_ok (rphase r) f = true.
+Proof.
+  intros T Ra. unfold row_ok in T.
+  apply andb_prop in T. destruct T as [T _]. apply andb_prop in T. destruct T as [T1 T2].
+  apply orb_true_iff in Ra. destruct Ra as [Ra|Ra].
+  - rewrite forallb_forall in T1. apply T1. apply memN_In. exact Ra.
+  - apply andb_true_iff in Ra. destruct Ra as [D Ra]. rewrite D in T2.
+    rewrite forallb_forall in T2. apply T2. apply memN_In. exact Ra.
+Qed.
+
+Lemma t_writer r' f m : In r' rows ->
+  existsb (fun w => N.eqb (fst w) f && N.eqb (snd w) m) (rwrites r') = true -> In r' (writers f).
+Proof.
+  intros Rr' W. unfold writers. apply filter_In. split; [exact Rr'|]. unfold writes_fam.
+  apply existsb_exists in W. destruct W as [w [Hw1 Hw2]]. apply andb_true_iff in Hw2.
+  apply existsb_exists. exists w. tauto.
+Qed.
+
+Lemma forallb_rphase ws p r' :
+  forallb (fun w => Z.ltb (rphase w) p) ws = true -> In r' ws -> (rphase r' < p)%Z.
+Proof. intros RO Wf. rewrite forallb_forall in RO. apply Z.ltb_lt. apply RO. exact Wf. Qed.
+
+(* stated so that the kernel unfolds [read_ok] (not [forallb] over the computed table) *)
+Lemma t_read_ok p f r' : read_ok p f = true -> In r' (writers f) -> (rphase r' < p)%Z.
+Proof. exact (forallb_rphase (writers f) p r'). Qed.
+
 Theorem table_discipline : table_ok = true -> forall (l : list (row * stmt)),
   (forall p, In p l -> In (fst p) rows /\ conforms (fst p) (snd p) = true) -> H2 (map snd l).
 Proof.
@@ -440,24 +474,149 @@ Proof.
   apply Z.eqb_eq in Pa. apply Z.eqb_eq in Pb. rewrite Pa, Pb.
   rewrite forallb_forall in Ra. specialize (Ra k Hr).
   rewrite forallb_forall in Wb'. specialize (Wb' k (proj1 (memN_In _ _) Wb)).
-  assert (Wf : In r' (writers (fam_of k))).
-  { unfold writers. apply filter_In. split; [exact Rr'|]. unfold writes_fam.
-    apply existsb_exists in Wb'. destruct Wb' as [w [Hw1 Hw2]]. apply andb_true_iff in Hw2.
-    apply existsb_exists. exists w. tauto. }
-  unfold table_ok in T.
-  apply andb_prop in T. destruct T as [T _]. apply andb_prop in T. destruct T as [T _].
-  apply andb_prop in T. destruct T as [T _].
-  rewrite forallb_forall in T. specialize (T r Rr). unfold row_ok in T.
-  apply andb_prop in T. destruct T as [T _]. apply andb_prop in T. destruct T as [T1 T2].
-  assert (RO : read_ok (rphase r) (fam_of k) = true).
-  { apply orb_true_iff in Ra. destruct Ra as [Ra|Ra].
-    - rewrite forallb_forall in T1. apply T1. apply memN_In. exact Ra.
-    - apply andb_true_iff in Ra. destruct Ra as [D Ra]. rewrite D in T2.
-      rewrite forallb_forall in T2. apply T2. apply memN_In. exact Ra. }
-  unfold read_ok in RO. rewrite forallb_forall in RO. apply Z.ltb_lt. apply RO. exact Wf.
+  apply t_rows_ok in T. rewrite forallb_forall in T. specialize (T r Rr).
+  apply (t_read_ok (rphase r) (fam_of k) r').
+  - apply t_row_read; assumption.
+  - eapply t_writer; [exact Rr'|exact Wb'].
 Qed.
 
 (* every program built from the real table's rows has the phase discipline *)
 Corollary table_programs_H2 : forall (l : list (row * stmt)),
   (forall p, In p l -> In (fst p) rows /\ conforms (fst p) (snd p) = true) -> H2 (map snd l).
 Proof. exact (table_discipline table_ok_holds). Qed.
+
+(* ------------------------------------------------------------------ non-vacuity *)
+Module Ex.
+  (* keys: 1 a utility, 2 an ordered container, 3 a multiview, 4 what the reader registers *)
+  Definition rd : stmt := mkS 1%N 0%Z MSet 0%N [1%N] [4%N].        (* reads the utility; phase 0 *)
+  Definition wr : stmt := mkS 2%N (-20)%Z MSet 0%N [] [1%N].       (* sets the utility; phase -20 *)
+  Definition q1 : stmt := mkS 3%N (-10)%Z MSeq 0%N [1%N] [2%N].    (* two members of the container *)
+  Definition q2 : stmt := mkS 4%N (-10)%Z MSeq 0%N [1%N] [2%N].
+  Definition a1 : stmt := mkS 5%N 0%Z MAcc 7%N [2%N] [3%N].        (* two views of the multiview *)
+  Definition a2 : stmt := mkS 6%N 0%Z MAcc 3%N [2%N] [3%N].
+  Definition keys : list N := [1; 2; 3; 4]%N.
+
+  (* the reader is declared BEFORE the writer of what it reads *)
+  Definition p1 : list stmt := [rd; q1; a1; wr; q2; a2].
+  Definition p2 : list stmt := [a2; wr; a1; q1; rd; q2].
+  Definition p3 : list stmt := [a1; a2; q1; q2; wr; rd].
+
+  Example p1_nodup : NoDup (map sid p1).
+  Proof. vm_compute. repeat (constructor; [cbn [In]; intuition discriminate|]). constructor. Qed.
+
+  Example p1_H1 : H1 p1.
+  Proof. apply h1b_H1. vm_compute. reflexivity. Qed.
+
+  Example p1_H2 : H2 p1.
+  Proof. apply h2b_H2. vm_compute. reflexivity. Qed.
+
+  Example p1_p2_perm : Permutation p1 p2.
+  Proof.
+    unfold p1, p2.
+    apply (Permutation_cons_app [a2; wr; a1; q1] [q2]). cbn [app].
+    apply (Permutation_cons_app [a2; wr; a1] [q2]). cbn [app].
+    apply (Permutation_cons_app [a2; wr] [q2]). cbn [app].
+    apply (Permutation_cons_app [a2] [q2]). cbn [app].
+    apply perm_swap.
+  Qed.
+
+  Example p1_p3_perm : Permutation p1 p3.
+  Proof.
+    unfold p1, p3.
+    apply (Permutation_cons_app [a1; a2; q1; q2; wr] []). cbn [app].
+    apply (Permutation_cons_app [a1; a2] [q2; wr]). cbn [app].
+    apply (Permutation_cons_app [] [a2; q2; wr]). cbn [app].
+    apply (Permutation_cons_app [a2; q2] []). cbn [app].
+    apply perm_swap.
+  Qed.
+
+  Lemma horder_seq2 k : forall l l',
+    filter (fun s => is_seq s && writes k s) l = filter (fun s => is_seq s && writes k s) l' ->
+    filter (seq_writer k) l = filter (seq_writer k) l'.
+  Proof. intros l l' H. exact H. Qed.
+
+  Example p1_p2_horder : Horder p1 p2.
+  Proof.
+    intros k. apply horder_seq2.
+    cbv [p1 p2 rd wr q1 q2 a1 a2 filter is_seq smode writes swrites memN andb orb].
+    destruct (N.eqb k 2); reflexivity.
+  Qed.
+
+  Example p1_p3_horder : Horder p1 p3.
+  Proof.
+    intros k. apply horder_seq2.
+    cbv [p1 p3 rd wr q1 q2 a1 a2 filter is_seq smode writes swrites memN andb orb].
+    destruct (N.eqb k 2); reflexivity.
+  Qed.
+
+  Example p1_ne_p2 : map sid p1 <> map sid p2 /\ map sid p1 <> map sid p3 /\ map sid p2 <> map sid p3.
+  Proof. vm_compute. repeat split; discriminate. Qed.
+
+  (* the theorem applies: all the hypotheses hold for these programs *)
+  Example p1_p2_equal : store_eq (final p1) (final p2).
+  Proof.
+    apply commit_permutation_invariant;
+      [exact p1_nodup|exact p1_p2_perm|exact p1_p2_horder|exact p1_H1|exact p1_H2].
+  Qed.
+
+  Example p1_p3_equal : store_eq (final p1) (final p3).
+  Proof.
+    apply commit_permutation_invariant;
+      [exact p1_nodup|exact p1_p3_perm|exact p1_p3_horder|exact p1_H1|exact p1_H2].
+  Qed.
+
+  (* ... and the executable comparison agrees on the keys *)
+  Example p1_p2_p3_cells :
+    store_eqb keys (final p1) (final p2) = true /\ store_eqb keys (final p1) (final p3) = true.
+  Proof. vm_compute. split; reflexivity. Qed.
+
+  (* what the store contains: the reader (declared first) saw the writer's utility; the container
+     keeps q1 before q2; the multiview is ordered by predicate order (3 before 7) *)
+  Example p1_cells :
+    final p1 1%N = [(0%N, Val 2 [])] /\
+    final p1 4%N = [(0%N, Val 1 [[Val 2 []]])] /\
+    map (fun c => match snd c with Val i _ => i end) (final p1 2%N) = [3%N; 4%N] /\
+    map (fun c => (fst c, match snd c with Val i _ => i end)) (final p1 3%N) = [(3%N, 6%N); (7%N, 5%N)].
+  Proof. vm_compute. repeat split; reflexivity. Qed.
+
+  Example p1_forward : final p1 1%N = [(0%N, mkval wr (final p1))].
+  Proof.
+    refine (proj1 (proj2 (forward_reference_ok p1 rd wr 1%N p1_nodup p1_H1 p1_H2 _ _ _ _ _))).
+    - left. reflexivity.
+    - right. right. right. left. reflexivity.
+    - left. reflexivity.
+    - reflexivity.
+    - reflexivity.
+  Qed.
+
+  (* H2 is needed: move the writer into the reader's phase; everything else still holds, and
+     the two declaration orders now give different stores *)
+  Definition wr0 : stmt := mkS 2%N 0%Z MSet 0%N [] [1%N].
+  Definition c1 : list stmt := [rd; q1; a1; wr0; q2; a2].
+  Definition c2 : list stmt := [a2; wr0; a1; q1; rd; q2].
+
+  Example c1_hyps : h1b c1 = true /\ h2b c1 = false /\ horderb keys c1 c2 = true.
+  Proof. vm_compute. repeat split; reflexivity. Qed.
+
+  Example c1_c2_perm : Permutation c1 c2.
+  Proof.
+    unfold c1, c2.
+    apply (Permutation_cons_app [a2; wr0; a1; q1] [q2]). cbn [app].
+    apply (Permutation_cons_app [a2; wr0; a1] [q2]). cbn [app].
+    apply (Permutation_cons_app [a2; wr0] [q2]). cbn [app].
+    apply (Permutation_cons_app [a2] [q2]). cbn [app].
+    apply perm_swap.
+  Qed.
+
+  Example c1_c2_differ : store_eqb keys (final c1) (final c2) = false.
+  Proof. vm_compute. reflexivity. Qed.
+
+  Example c1_c2_not_equal : ~ store_eq (final c1) (final c2).
+  Proof. intros H. specialize (H 4%N). vm_compute in H. discriminate. Qed.
+
+  (* Horder is needed: swapping the two members of the container changes the store *)
+  Definition p4 : list stmt := [rd; q2; a1; wr; q1; a2].
+  Example p1_p4_differ : h1b p4 = true /\ h2b p4 = true /\ horderb keys p1 p4 = false /\
+                         store_eqb keys (final p1) (final p4) = false.
+  Proof. vm_compute. repeat split; reflexivity. Qed.
+End Ex.
